@@ -125,10 +125,14 @@ func (m *MessageStore) ProcessMessageQueueForDevicePK(ctx context.Context, devic
 			m.logger.Error("unable to process message, unmarshal of device pk failed", logutil.PrivateBinary("devicepk", devicePK))
 		} else if device.hasKnownChainKey = m.secretStore.IsChainKeyKnownForDevice(ctx, m.groupPublicKey, devicePublicKey); !device.hasKnownChainKey {
 			m.logger.Error("unable to process message, no secret found for device pk", logutil.PrivateBinary("devicepk", devicePK))
-		} else if next := device.queue.Next(); next != nil {
-			// let's try processing one message from the queue.
-			// if it succeeds, the whole queue should be added for processing.
-			m.messagesQueue.Add(next)
+		} else {
+			// the chain key of this device is known now: hand every parked
+			// message back for processing. Trying only the one with the
+			// lowest counter is not enough: a message sealed before the
+			// chain key was announced to us can never be opened, it would
+			// go back to the cache and keep the later, openable ones parked
+			// until another message of that device arrives.
+			m.processDeviceMessagesInQueue(device)
 		}
 	}
 	m.muDeviceCaches.Unlock()
